@@ -18,6 +18,11 @@
 (*   FixedCount   : Records::Write keeps mNrows = rows in the file (unrepaired: = rows of   *)
 (*                  the last chunk, which is what a later read through the handle uses)    *)
 (*   FixedMissing : SFile.open stores the mode it fell back to for 'r+' on a missing path  *)
+(*   FixedClose   : SFile.close forgets header / size / dtype, so that an object opened     *)
+(*                  again for writing starts from nothing (FALSE: they survive and the       *)
+(*                  first write to the new file takes the append path)                       *)
+(*   FixedSeek    : every row write and every SIZE rewrite ends with the stream at the end   *)
+(*                  of the file (FALSE: rows are written where a partial read left it)       *)
 (*                                                                                        *)
 (* What TLC checks here: the mechanism's own invariants (the SIZE rewrite touches only     *)
 (* the SIZE line and keeps the data offset; the three row counts agree; SIZE = number of   *)
@@ -27,11 +32,12 @@
 (* of the real code.                                                                        *)
 EXTENDS VU, Json
 
-CONSTANTS FixedCompat, FixedCount, FixedMissing,
+CONSTANTS FixedCompat, FixedCount, FixedMissing, FixedClose, FixedSeek,
           ChunkIds, Hdrs, Delims, Modes,
           MaxDepth,      \* behaviours of at most this many calls
           KeepHist,      \* record the behaviour (export runs); FALSE: states merge (invariant runs)
           ExportAt,      \* 0: print every behaviour; k > 0: only those of exactly k calls; 99: none
+          Sels,          \* what reads through the handle ask for: subset of {"all", "first", "head", "cols"}
           PathOps        \* also the path-level calls sfile.write(path, ..., append=)
 
 VARIABLES disk, sf, cpp, mres, hist
@@ -89,31 +95,36 @@ AbsFile(dk) ==
 
 \* ---- the objects ----------------------------------------------------------------------------------
 NoSf  == [open |-> FALSE, mode |-> "none", hashdr |-> FALSE, size |-> 0, descr |-> RSC!NoDescr, delim |-> "none", rfn |-> 0]
-NoCpp == [open |-> FALSE, nrows |-> 0, rd |-> FALSE]
+NoCpp == [open |-> FALSE, nrows |-> 0, rd |-> FALSE, pos |-> 0]          \* pos: the stream position, in cells
 Bundle == [disk |-> disk, sf |-> sf, cpp |-> cpp]
 Out(s, r) == [s |-> s, res |-> r]
 
-\* ---- SFile.open -------------------------------------------------------------------------------------
-SfOpen(s, m, dl) ==
-    LET em == IF m = "r+" /\ ~s.disk.exists /\ FixedMissing THEN "w" ELSE m      \* "change the mode to write"
+\* ---- SFile.close: the Recfile is closed and dropped; what the object knows about the file is forgotten ------------
+SfClose(s) == Out([s EXCEPT !.sf = IF FixedClose THEN NoSf ELSE [@ EXCEPT !.open = FALSE], !.cpp = NoCpp], RSC!NoRes("close"))
+
+\* ---- SFile.open (on a new object, or again on one that was used before: "self.close()" comes first) --------------
+SfOpen(s0, m, dl) ==
+    LET s  == SfClose(s0).s
+        em == IF m = "r+" /\ ~s.disk.exists /\ FixedMissing THEN "w" ELSE m      \* "change the mode to write"
     IN
-    IF em = "r+"
-    THEN \* self.read_header(); Recfile(mode='r+', nrows=_SIZE, offset=data_start)
+    IF em \in {"r", "r+"}
+    THEN \* self.read_header(); Recfile(mode=em, nrows=_SIZE, offset=data_start): every field is set from the file
          IF ~s.disk.exists \/ ~HasHeader(s.disk.cells)
          THEN Out(s, RSC!RejRes("open"))                     \* FileNotFoundError / "EOF reached before reading header end"
          ELSE LET n == SizeOf(s.disk.cells)  mt == MetaOf(s.disk.cells) IN
               IF n < 1 THEN Out(s, RSC!RejRes("open"))       \* Records::process_nrows: "Input nrows must be >= 1"
-              ELSE Out([s EXCEPT !.sf = [open |-> TRUE, mode |-> "r+", hashdr |-> TRUE, size |-> n, descr |-> mt.descr,
+              ELSE Out([s EXCEPT !.sf = [open |-> TRUE, mode |-> em, hashdr |-> TRUE, size |-> n, descr |-> mt.descr,
                                          delim |-> mt.delim, rfn |-> n],
-                                 !.cpp = [open |-> TRUE, nrows |-> n, rd |-> TRUE]],
+                                 \* Records::Records: goto_offset() - the stream is at the first row
+                                 !.cpp = [open |-> TRUE, nrows |-> n, rd |-> TRUE,
+                                          pos |-> IF FixedSeek \/ em = "r" THEN HdrLen ELSE Len(s.disk.cells)]],
                        RSC!CountRes("open", n))
     ELSE \* Recfile(mode=em): Records::Records does fopen(em) - the file is created / truncated - and for "w+"
-         \* then demands a dtype and nrows the caller did not give
+         \* then demands a dtype and nrows the caller did not give.  This branch sets _delim only.
          LET trunc == [s EXCEPT !.disk = [exists |-> TRUE, cells |-> <<>>]] IN
          IF em = "w+" THEN Out(trunc, RSC!RejRes("open"))
-         ELSE Out([trunc EXCEPT !.sf = [open |-> TRUE, mode |-> "w", hashdr |-> FALSE, size |-> 0, descr |-> RSC!NoDescr,
-                                        delim |-> dl, rfn |-> 0],
-                                !.cpp = [open |-> TRUE, nrows |-> 0, rd |-> FALSE]],
+         ELSE Out([trunc EXCEPT !.sf = [@ EXCEPT !.open = TRUE, !.mode = "w", !.delim = dl, !.rfn = 0],
+                                !.cpp = [open |-> TRUE, nrows |-> 0, rd |-> FALSE, pos |-> 0]],
                   RSC!NoRes("open"))
 
 \* ---- SFile.write ------------------------------------------------------------------------------------
@@ -124,12 +135,16 @@ CompatRaises(s, c) ==
     /\ IF text THEN s.sf.descr[1] # c.descr[1]                        \* names / types / shapes, byte order skipped
                ELSE s.sf.descr # c.descr /\ FixedCompat               \* exact match demanded ... and raised only when repaired
 
-\* Records::update_row_count: rewind; fprintf("SIZE = %20ld\n"); fseek(end)
+\* stdio, with the stream position: [cells, pos]
+\* Records::update_row_count: rewind; fprintf("SIZE = %20ld\n"); fseek(end)   (unrepaired: back to where it was)
 UpdateRowCount(cells, n) == WriteAt(cells, 0, SizeLine(n))
-\* Records::write_header_and_update_offset: rewind; fprintf(header)
+AfterUpdate(cells, pos) == IF FixedSeek THEN Len(cells) ELSE pos
+\* Records::write_header_and_update_offset: rewind; fprintf(header) - the stream is after the header
 WriteHeader(cells, n, hd, d, dl) == WriteAt(cells, 0, SizeLine(n) \o <<Meta(hd, d, dl)>>)
-\* Records::Write: fseek(end); fwrite / WriteRows
-CppWrite(cells, c, text) == cells \o [i \in 1..Len(c.rows) |-> RowCell(c.rows[i], c.descr, text)]
+\* Records::Write: fseek(end) (unrepaired: no seek); fwrite / WriteRows at the stream position
+RowCells(c, text) == [i \in 1..Len(c.rows) |-> RowCell(c.rows[i], c.descr, text)]
+WritePos(cells, pos) == IF FixedSeek THEN Len(cells) ELSE pos
+CppWrite(cells, pos, c, text) == WriteAt(cells, WritePos(cells, pos), RowCells(c, text))
 
 SfWrite(s, c, hd) ==
     LET text  == s.sf.delim # "none"
@@ -142,42 +157,52 @@ SfWrite(s, c, hd) ==
              d     == IF first THEN RSC!NormDescr(s.sf.delim, c.descr) ELSE s.sf.descr
              \* _write_header: the header the first time (header= is used only then), else _update_size
              c1    == IF first THEN WriteHeader(s.disk.cells, n, hd, d, s.sf.delim) ELSE UpdateRowCount(s.disk.cells, total)
-             c2    == CppWrite(c1, c, text)
+             p1    == IF first THEN HdrLen ELSE AfterUpdate(c1, s.cpp.pos)
+             c2    == CppWrite(c1, p1, c, text)
          IN Out([s EXCEPT !.disk = [exists |-> TRUE, cells |-> c2],
                           !.sf = [@ EXCEPT !.hashdr = TRUE, !.size = total, !.descr = d, !.rfn = @ + n],
-                          !.cpp = [@ EXCEPT !.nrows = IF FixedCount THEN @ + n ELSE n]],
+                          !.cpp = [@ EXCEPT !.nrows = IF FixedCount THEN @ + n ELSE n, !.pos = WritePos(c1, p1) + n]],
                 RSC!CountRes(op, total))
 
-\* ---- SFile.read() through the handle ----------------------------------------------------------------------
-SfRead(s) ==
+\* ---- SFile.read(...) / sf[...] through the handle -------------------------------------------------------------------
+\* how many rows a selection reads from the start of the data (where it leaves the stream)
+SelCount(sel, total) == CASE sel = "all" -> total [] sel = "head" -> (IF total < 2 THEN total ELSE 2) [] OTHER -> (IF total < 1 THEN total ELSE 1)
+SfRead(s, sel) ==
     IF s.sf.mode = "w" THEN Out(s, RSC!RejRes("read"))              \* _ensure_open_for_reading
     ELSE LET text  == s.sf.delim # "none"
              total == s.sf.rfn                                       \* Recfile.nrows: numpy.zeros(self.nrows)
              stored == DataRows(s.disk.cells, s.sf.descr)
              mt    == MetaOf(s.disk.cells)
-             got(rows) == [op |-> "read", err |-> "none", descr |-> s.sf.descr, rows |-> rows, hdr |-> mt.hdr,
-                           size |-> s.sf.size, delim |-> s.sf.delim]
-         IN IF text
+             k     == SelCount(sel, total)
+             after == [s EXCEPT !.cpp.pos = HdrLen + k]              \* goto_offset(); the rows read; the stream stays there
+             got(rows) == [op |-> "read", err |-> "none", descr |-> IF sel = "cols" THEN RSC!ColsDescr ELSE s.sf.descr,
+                           rows |-> RSC!SelRows(sel, rows), hdr |-> mt.hdr, size |-> s.sf.size, delim |-> s.sf.delim]
+         IN IF total > Len(stored) THEN Out(s, RSC!RejRes("read"))   \* (only when rows were lost: a short read fails)
+            ELSE IF sel # "all"
+            THEN \* rows=[0] / [0:2] / rows=[0], columns=: explicit rows, checked against Recfile.nrows
+                 Out(after, got(stored))
+            ELSE IF text
             THEN \* read_text_columns(rows=None): mNrows rows are scanned into the zeroed result
-                 Out(s, got(IF total = 0 THEN <<>> ELSE [i \in 1..total |-> IF i <= s.cpp.nrows THEN stored[i] ELSE 0]))
+                 Out(after, got(IF total = 0 THEN <<>> ELSE [i \in 1..total |-> IF i <= s.cpp.nrows THEN stored[i] ELSE 0]))
             ELSE \* read_binary_slice(0, nrows, 1): "Requested slice beyond declared size"
                  IF total > s.cpp.nrows THEN Out(s, RSC!RejRes("read"))
-                 ELSE Out(s, got(IF total = 0 THEN <<>> ELSE [i \in 1..total |-> stored[i]]))
-
-SfClose(s) == Out([s EXCEPT !.sf = NoSf, !.cpp = NoCpp], RSC!NoRes("close"))
+                 ELSE Out(after, got(IF total = 0 THEN <<>> ELSE [i \in 1..total |-> stored[i]]))
 
 \* ---- sfile.write(path, data, header=, delim=, append=): with SFile(path, mode) as sf: sf.write(data, header=) ----
-PathWrite(s, c, hd, dl, append) ==
-    LET o  == SfOpen(s, IF append THEN "r+" ELSE "w", dl)
+PathWrite(s0, c, hd, dl, append) ==
+    LET s  == [s0 EXCEPT !.sf = NoSf, !.cpp = NoCpp]                  \* a new SFile object
+        o  == SfOpen(s, IF append THEN "r+" ELSE "w", dl)
         op == IF append THEN "append" ELSE "write"
-    IN IF o.res.err # "none" THEN Out(o.s, RSC!RejRes(op))
+        back(t) == [t EXCEPT !.sf = s0.sf, !.cpp = s0.cpp]           \* (the caller's own object is not involved)
+    IN IF o.res.err # "none" THEN Out(back(o.s), RSC!RejRes(op))
        ELSE LET w == SfWrite(o.s, c, hd) IN
-            Out(SfClose(w.s).s, IF w.res.err = "none" THEN RSC!NoRes(op) ELSE RSC!RejRes(op))
+            Out(back(SfClose(w.s).s), IF w.res.err = "none" THEN RSC!NoRes(op) ELSE RSC!RejRes(op))
 
 \* ---- behaviours -------------------------------------------------------------------------------------------------
 \* the event in the format of RecStoreTrace.tla
 Ev(o, m, dl, c, hd, out) ==
     [op |-> o, h |-> IF o \in {"write", "append", "read"} THEN 0 ELSE 1, p |-> 1, mode |-> m, delim |-> dl, chunk |-> c, hdr |-> hd,
+     sel |-> "all",
      res |-> [err |-> out.res.err, descr |-> out.res.descr, rows |-> out.res.rows, hdr |-> out.res.hdr,
               size |-> out.res.size, delim |-> out.res.delim],
      obs |-> <<AbsFile(out.s.disk)>>,
@@ -192,11 +217,13 @@ Do(out, e) == /\ Len(hist) < MaxDepth
 
 Init == disk = NoDisk /\ sf = NoSf /\ cpp = NoCpp /\ mres = RSC!NoRes("init") /\ hist = <<>>
 
-MOpen  == ~sf.open /\ \E m \in Modes : \E dl \in (IF m = "r+" /\ AbsFile(disk).st = "ok" THEN {"none"} ELSE Delims) :
+\* on a new object, a closed one, or one that is still open (sf.open(...) again)
+MOpen  == Modes # {} /\ \E m \in Modes : \E dl \in (IF m \in {"r", "r+"} /\ AbsFile(disk).st = "ok" THEN {"none"} ELSE Delims) :
              \E out \in {SfOpen(Bundle, m, dl)} : Do(out, Ev("open", m, dl, NoChunk, "none", out))
-MWrite == sf.open /\ \E id \in ChunkIds : \E hd \in (IF sf.hashdr THEN {"none"} ELSE Hdrs) :
+MWrite == sf.open /\ sf.mode # "r" /\ \E id \in ChunkIds : \E hd \in (IF sf.hashdr THEN {"none"} ELSE Hdrs) :
              \E out \in {SfWrite(Bundle, ChunkOf(id), hd)} : Do(out, Ev("hwrite", "none", "none", ChunkOf(id), hd, out))
-MRead  == sf.open /\ \E out \in {SfRead(Bundle)} : Do(out, Ev("hread", "none", "none", NoChunk, "none", out))
+MRead  == sf.open /\ \E sel \in Sels : \E out \in {SfRead(Bundle, sel)} :
+             Do(out, [Ev("hread", "none", "none", NoChunk, "none", out) EXCEPT !.sel = sel])
 MClose == sf.open /\ \E out \in {SfClose(Bundle)} : Do(out, Ev("hclose", "none", "none", NoChunk, "none", out))
 MPathWrite  == PathOps /\ ~sf.open /\ \E id \in ChunkIds, hd \in Hdrs, dl \in Delims :
              \E out \in {PathWrite(Bundle, ChunkOf(id), hd, dl, FALSE)} : Do(out, Ev("write", "none", dl, ChunkOf(id), hd, out))
@@ -212,10 +239,15 @@ Spec == Init /\ [][Next]_mvars
 SizeLineInv == (disk.exists /\ HasHeader(disk.cells)) => SizeOf(disk.cells) = Len(disk.cells) - HdrLen
 
 \* the three row counts of an open handle agree with the file: SFile._size, Recfile.nrows, Records::mNrows
-CacheInv == (sf.open /\ sf.hashdr) => /\ sf.size = SizeOf(disk.cells)
+CacheInv == (sf.open /\ sf.hashdr) => /\ HasHeader(disk.cells)
+                                      /\ sf.size = SizeOf(disk.cells)
                                       /\ sf.rfn = sf.size
                                       /\ sf.descr = MetaOf(disk.cells).descr /\ sf.delim = MetaOf(disk.cells).delim
 CppCountInv == (sf.open /\ sf.hashdr /\ cpp.rd) => cpp.nrows = Len(disk.cells) - HdrLen
+\* an object that is not open knows nothing of the file it had (so that opening it again starts from nothing)
+ClosedInv == ~sf.open => sf = NoSf
+\* after a write through it the handle's stream is at the end of the file
+StreamInv == (sf.open /\ hist # <<>> /\ hist[Len(hist)].op = "hwrite" /\ mres.err = "none") => cpp.pos = Len(disk.cells)
 
 \* every stored row was written with the file's fields and byte order
 RowsInv == (disk.exists /\ HasHeader(disk.cells)) =>
